@@ -18,7 +18,7 @@ LEVEL = "model_checking"
 # ---------------------------------------------------------------------------------------------- the curves
 # complete small curves (name, p, A, B): p = 3 and 1 mod 4, A = -3 and A # -3 (incl. A = 0, B = 0), prime and
 # composite orders, points of order 2 (y = 0) and 3.  Attributes are COMPUTED by TLC, not assumed.
-TINY = [("p11a", 11, 8, 0), ("p13a", 13, 0, 3), ("p23a", 23, 1, 2), ("p19a", 19, 16, 9)]
+TINY = [("p11a", 11, 8, 0), ("p11b", 11, 1, 6), ("p13a", 13, 0, 3), ("p23a", 23, 1, 2), ("p19a", 19, 16, 9)]
 QUICK_INT = TINY + [("p67a", 67, 64, 1), ("p73a", 73, 70, 32), ("p103a", 103, 1, 2)]
 THOROUGH_INT = QUICK_INT + [("p131a", 131, 1, 24), ("p193a", 193, 0, 2), ("p751a", 751, 748, 5), ("p1019a", 1019, 1016, 7),
                             ("p1021a", 1021, 3, 11), ("p509a", 509, 1, 0), ("p1013a", 1013, 1010, 4)]
